@@ -182,6 +182,8 @@ def ev(f, e, env, locals_=None, depth=0):
             for p_, a_ in zip(h["params"], c[1:]):
                 pt = facts.tyi(h, p_.get("t")) or {}
                 if pt.get("k") not in ("int", "bool", "enum"):
+                    if env.get("__termfn2__") is not None and pt.get("k") in ("ref", "ptr"):
+                        continue        # an object handed on by reference: what is read from it is served by __termfn2__
                     raise Unknown("call %s with a non-integer argument" % e.get("cname"))
                 henv[p_["var"]] = wrap(ev(f, a_, env, locals_, depth + 1), pt)
             r = run_body(h, h["body"], henv)
